@@ -434,7 +434,9 @@ Fixpoint m16_pubs (k : caps) (i : nat) (b : obs) (conns : list sconn) (ws : list
             end in
           let v_content := if beq_msg mm (x_will x) then [] else [mkv V16_content i c (x_id x)] in
           let v_retain :=
-            if m_retain mm && k_retain k then
+            (* unless a later retained will of this very step replaced it on the same topic *)
+            if m_retain mm && k_retain k &&
+               negb (existsb (fun w => beq_bytes (m_topic (snd w)) (m_topic mm) && m_retain (snd w)) r) then
               match aget (m_topic mm) (sn_retained (b_post b)) with
               | Some pl => if beq_bytes pl (m_payload mm) then [] else [mkv V16_retain i c (x_id x)]
               | None => [mkv V16_retain i c (x_id x)]
